@@ -17,6 +17,7 @@ import (
 	"runtime"
 	"sort"
 	"strings"
+	"sync/atomic"
 	"time"
 
 	frugal "github.com/Workiva/frugal/lib/go"
@@ -36,6 +37,7 @@ type One struct {
 	Kind      string `json:"kind"`
 	Frames    int    `json:"frames"`
 	Inherited bool   `json:"inherited"`
+	Fault     string `json:"fault"`
 }
 
 type Violation struct {
@@ -255,6 +257,10 @@ func observe(m string, v interface{}, err error) string {
 		}
 		return fmt.Sprintf("TApplicationException:%d", ae.TypeId())
 	}
+	var te thrift.TTransportException
+	if errors.As(err, &te) {
+		return "transport-error"
+	}
 	return "error:" + err.Error()
 }
 
@@ -307,6 +313,12 @@ func main() {
 					continue
 				}
 				for _, c := range seq {
+					if c.Fault == "drop-after-handler" {
+						if kind != "http" {
+							continue // the harness can cut a connection between handler and response only on its own HTTP server
+						}
+						atomic.StoreInt32(&env.DropAfterHandler, 1)
+					}
 					a := argsFor(c.M, c.Args)
 					outcome := c.O
 					env.Handler.Script = func(string, int, []interface{}) rig.Outcome { return rig.Outcome{Kind: outcome} }
